@@ -323,19 +323,13 @@ fn execute_between_operation(
     high: &Expr,
     input: &impl ExecutionInput,
 ) -> Result<DataValue, ExecutionError> {
+    // BETWEEN is (expr >= low AND expr <= high), NOT BETWEEN its negation
     match execute_binary_operation(expr, &Operator::Ge, low, input) {
-        Ok(DataValue::Bool(low_cond)) => match low_cond {
-            true => {
-                if negated {
-                    return Ok(DataValue::Bool(false));
-                }
+        Ok(DataValue::Bool(low_cond)) => {
+            if !low_cond {
+                return Ok(DataValue::Bool(negated));
             }
-            false => {
-                if !negated {
-                    return Ok(DataValue::Bool(false));
-                }
-            }
-        },
+        }
         Ok(data_value) => {
             return Err(ExecutionError::TypeError(format!(
                 "comparison BETWEEN {data_value:?} AND ... not supported"
@@ -345,18 +339,11 @@ fn execute_between_operation(
     };
 
     match execute_binary_operation(expr, &Operator::Le, high, input) {
-        Ok(DataValue::Bool(high_cond)) => match high_cond {
-            true => {
-                if negated {
-                    return Ok(DataValue::Bool(false));
-                }
+        Ok(DataValue::Bool(high_cond)) => {
+            if !high_cond {
+                return Ok(DataValue::Bool(negated));
             }
-            false => {
-                if !negated {
-                    return Ok(DataValue::Bool(false));
-                }
-            }
-        },
+        }
         Ok(data_value) => {
             return Err(ExecutionError::TypeError(format!(
                 "comparison BETWEEN ... AND {data_value:?} not supported"
@@ -364,7 +351,7 @@ fn execute_between_operation(
         }
         Err(e) => return Err(e),
     };
-    Ok(DataValue::Bool(true))
+    Ok(DataValue::Bool(!negated))
 }
 
 impl ExecutionInputImpl {
